@@ -108,11 +108,15 @@ Definition seq_clauses (o : sop) (ob sp : list nat) : list string :=
   (if Nat.eqb (nth0 ob 0) 0 && Nat.eqb (nth0 ob 4) 0 then [] else ["no_call_raises_or_hangs"]) ++
   (if Nat.eqb (nth0 ob 1) (nth0 sp 1) && Nat.eqb (nth0 ob 2) (nth0 sp 2) then []
    else match o with
-        | SStop => ["stop_releases"]
+        | SStop | SStopBusy => ["stop_releases"]
         | SStart => ["start_brings_up"]
         | _ => ["state_stable_between_calls"]
         end) ++
-  (if Nat.eqb (nth0 ob 3) (nth0 sp 3) then [] else ["requests_served_iff_running"]).
+  (if Nat.eqb (nth0 ob 3) (nth0 sp 3) then []
+   else match o with
+        | SStopBusy => ["stop_waits_for_main_thread"]
+        | _ => ["requests_served_iff_running"]
+        end).
 
 Fixpoint seq_holds (h : list sop) (obl spl : list (list nat)) : list string :=
   match h, obl, spl with
@@ -153,7 +157,7 @@ Definition valid : case -> Prop := valid_f explore_fuel.
 
 (* ---------- sx ---------- *)
 Definition asSop (x : sx) : option sop :=
-  match x with I 0%Z => Some SStart | I 1%Z => Some SStop | I 2%Z => Some SRequest | I 3%Z => Some STick | _ => None end.
+  match x with I 0%Z => Some SStart | I 1%Z => Some SStop | I 2%Z => Some SRequest | I 3%Z => Some STick | I 4%Z => Some SStopBusy | _ => None end.
 Definition asSrv (x : sx) : option srv := match x with I 0%Z => Some Tftp | I 1%Z => Some Http | _ => None end.
 Definition asHres (x : sx) : option handler_res :=
   match x with I 0%Z => Some HFile | I 1%Z => Some HTftpError | I 2%Z => Some HException | _ => None end.
